@@ -14,9 +14,9 @@ CORR_V = ('Corr/CorrC13.v',)
 HEADER = 'From Coq Require Import String.\nRequire Import V.Corr.CorrC13.\nOpen Scope string_scope.\n'
 
 # closed under prefix / substring / digit-suffix relations
-BASES = ['A', 'A_B', 'A_A', 'AB', 'Fit', 'Fit_001', 'Fit2', 'SHO_Fit', 'Meas', 'Measure', 'Meas_Chan', 'C', 'C_C', 'X_1', 'X']
+BASES = ['A', 'A_B', 'A_A', 'AB', 'Fit', 'Fit_001', 'Fit2', 'SHO_Fit', 'Meas', 'Measure', 'Meas_Chan', 'C', 'C_C', 'X_1', 'X', 'A.B', 'AxB', 'Fit(2)', 'cost_$', '^top']
 DSETS = ['Raw', 'Raw_Data', 'Data', 'Raw2', 'Raw_Data_2', 'D']
-TOOLS = ['Fit', 'SHO_Fit', 'Fit2', 'Fitter', 'Mean', 'Mean_Val', 'Mean-Val', 'F', 'Fit_2', 'Mean_Val_07', 'Fit_', 'SHO-']      # a trailing '_' / '-' (the latter is rewritten to '_') belongs to the tool name
+TOOLS = ['Fit', 'SHO_Fit', 'Fit2', 'Fitter', 'Mean', 'Mean_Val', 'Mean-Val', 'F', 'Fit_2', 'Mean_Val_07', 'Fit_', 'SHO-', 'Fit(2)', 'a|b']      # a trailing '_' / '-' (the latter is rewritten to '_') belongs to the tool name
 
 
 def cs(s):
@@ -80,14 +80,16 @@ def run(ctx, build):
             # designed histories (independent of the seed): numbers of different widths under one base (unpadded next to padded,
             # beyond 999), for indexed and for results groups; the first operations are then creations for exactly that base
             script = []
-            if hi < 7:
+            if hi < 8:
                 pre, script = [(['A_7', 'A_010', 'A_011'], [('idx', 'A'), ('idx', 'A')]),
                                (['Fit_999', 'Fit_1000'], [('idx', 'Fit'), ('idx', 'Fit')]),
                                (['Raw-Fit_9', 'Raw-Fit_010'], [('res', 'Raw', 'Fit'), ('res', 'Raw', 'Fit')]),
                                (['Raw-Fit_999', 'Raw-Fit_1000', 'Raw-Fit_2_003'], [('res', 'Raw', 'Fit'), ('res', 'Raw', 'Fit_2')]),
                                (['X_1_9', 'X_1_10', 'X_5'], [('idx', 'X_1'), ('idx', 'X')]),
                                (['C_99', 'C_100', 'C_C_100'], [('idx', 'C'), ('idx', 'C_C')]),
-                               (['Raw-Fit_001'], [('res', 'Raw', 'Fit_'), ('res', 'Raw', 'Fit'), ('res', 'Raw', 'Fit_'), ('res', 'Raw', 'SHO-')])][hi]
+                               (['Raw-Fit_001'], [('res', 'Raw', 'Fit_'), ('res', 'Raw', 'Fit'), ('res', 'Raw', 'Fit_'), ('res', 'Raw', 'SHO-')]),
+                               (['AxB_007', 'Fit2_003'], [('idx', 'A.B'), ('idx', 'A.B'), ('idx', 'Fit(2)'), ('idx', 'Fit(2)'), ('res', 'Raw', 'Fit(2)'),
+                                                         ('res', 'Raw', 'Fit(2)'), ('res', 'Raw', 'a|b'), ('idx', 'cost_$'), ('idx', 'cost_$')])][hi]
                 for nm in pre:
                     if nm not in root:
                         root.create_group(nm)
@@ -114,7 +116,7 @@ def run(ctx, build):
                 if is_grp and mm:
                     created[nm] = ('res', mm.group(1), mm.group(2), 'pre-existing')
             deleted_ever = set()
-            n_ops = rng.randint(3, max_ops)
+            n_ops = max(rng.randint(3, max_ops), len(script) + 2)
             bases = rng.sample(BASES, rng.randint(2, 5))
             tools = rng.sample(TOOLS, rng.randint(2, 4))
             if any(a != b and (b.startswith(a) or a in b) for a in bases + tools + dsets for b in bases + tools + dsets):
@@ -244,6 +246,33 @@ def run(ctx, build):
                 distinct.add(tuple(map(str, log)))
             if len(out.samples) < 3:
                 out.samples.append({'initial_members': init, 'history': log})
+    # ---- designed (oracle only): the source dataset is reached through another group (a second hard link, a soft link): results
+    # created for that handle must be found again through that handle, and their source recovered
+    hist['alias_handles'] = 0
+    with h5py.File(path, 'w') as f:
+        home = f.create_group('Measurement_000/Channel_000')
+        home.create_dataset('Raw', data=np.arange(3))
+        home.create_dataset('Data', data=np.arange(4))
+        views = f.create_group('Views')
+        views['Raw'] = h5py.SoftLink('/Measurement_000/Channel_000/Raw')
+        views['Data'] = home['Data']
+        for alias in ('/Views/Raw', '/Views/Data'):
+            hist['alias_handles'] += 1
+            made = []
+            try:
+                with common.quiet():
+                    for _ in range(2):
+                        made.append(create_results_group(f[alias], 'Fit').name)
+                    create_results_group(f[alias], 'Fit_2')
+                    found = sorted(g.name for g in find_results_groups(f[alias], 'Fit'))
+                    srcs = [f[f[m0].attrs['source_000']].name for m0 in made]       # the recorded source (raw h5py)
+                if found != sorted(made):
+                    violate('hdf_utils.find_results_groups', 'dataset_reached_through_another_group', 'lookup_not_exact',
+                            '%s: found %s, created %s' % (alias, found, made), {'alias': alias})
+                if any(f[s0] != f[alias] for s0 in srcs):
+                    violate('hdf_utils.create_results_group', 'dataset_reached_through_another_group', 'tool_or_source_not_recorded', '%s -> %s' % (alias, srcs), {'alias': alias})
+            except Exception as e:
+                violate('hdf_utils.create_results_group / find_results_groups', 'dataset_reached_through_another_group', 'raises', '%r for %s' % (e, alias), {'alias': alias})
     bad, err = common.coq_eval_cases(ctx, HEADER, cases, 'check13', case_type='case13', per_file=200)
     out.corr_error = err
     out.disagreements = [meta[i] for i in bad]
